@@ -5,7 +5,7 @@ from .. import core, faultgen, profgen
 class C22(core.Prop):
     id = "C22"
     drivers = [faultgen.DRIVER]
-    sizes = {"quick": 500, "thorough": 8000}
+    sizes = {"quick": 300, "thorough": 8000}
     max_workers = 6
     ready = True
     technique = ("property-based testing (Hypothesis): generated profiles on a host and a link observed by isolated executions, "
@@ -40,7 +40,7 @@ class C22(core.Prop):
 
     def check(self, case):
         oc = core.Outcome()
-        log = faultgen.run(case)
+        log = faultgen.run(case, cpu=5)       # a run takes a few ms of CPU: 5 s is 1000x the median (a frozen flow under a periodic profile never ends)
         if log.wall_exceeded:
             raise core.Inconclusive()
         labels = set()
